@@ -173,6 +173,40 @@ def call(client, arg):
     return fn
 
 
+def plain_transport_clone(style):
+    """-> None when a client over a plain Transport subclass (no __deepcopy__ of its own) can be cloned and the
+    clone's options are its own; else a description of what went wrong."""
+    import suds.transport
+
+    class Plain(suds.transport.Transport):
+        def __init__(self):
+            suds.transport.Transport.__init__(self)
+            self.sent = []
+
+        def open(self, request):
+            raise suds.transport.TransportError("no documents here", 404)
+
+        def send(self, request):
+            self.sent.append(request.message)
+            return None
+
+    client, _tr = make_client(style)
+    client.set_options(transport=Plain(), timeout=7)
+    try:
+        c2 = client.clone()
+    except RecursionError:
+        return "RecursionError"
+    except Exception as e:
+        return "%s: %s" % (type(e).__name__, str(e)[:120])
+    c2.set_options(timeout=3)
+    client.set_options(timeout=11)
+    got = [client.options.timeout, client.options.transport.options.timeout, c2.options.timeout,
+           c2.options.transport.options.timeout, c2.options.transport is client.options.transport]
+    if got != [11, 11, 3, 3, False]:
+        return "options after clone: %r" % (got,)
+    return None
+
+
 def clone_and_call(client, arg):
     def fn():
         c2 = client.clone()
@@ -256,6 +290,12 @@ def run(ctx):
             ctx.fail("an in-place change of a mutable option value on a clone shows up on the original client",
                      {"style": style, "scenario": "clone-mutable-options"}, leaked or "request carries the clone's plugin edit",
                      "clone and original hold separate option values")
+        # "a clone can always be made": also of a client whose transport is the caller's own Transport subclass
+        if plain_transport_clone(style):
+            ctx.fail("a clone cannot be made of a client that uses a caller-written Transport subclass (or it shares "
+                     "the transport's options with the original)", {"style": style, "scenario": "clone-plain-transport"},
+                     plain_transport_clone(style), "a clone with its own options")
+        ctx.case(("clone-plain-transport", style), True)
         # shared state: only memo cells may change during invocations
         fp0 = shared_fingerprint(client)
         for _ in range(3):
@@ -335,6 +375,14 @@ def run(ctx):
     sys.setswitchinterval(old_switch)
     ctx.sample({"style": "encoded", "scenario": "two-calls", "preempt_after_event": 1234})
     ctx.sample({"style": "document", "scenario": "random-lines", "threads": 3, "switches": [[17, 1], [230, 2]]})
+
+
+def witness(ctx, k):
+    """D41 (fixed): Client.clone() over a caller-written Transport subclass."""
+    w = k.get("witness") or {}
+    if w.get("kind") == "clone-plain-transport":
+        return plain_transport_clone("document") is not None
+    return None
 
 
 def widen(ctx):
